@@ -7,7 +7,6 @@ import (
 	"net/url"
 	"sort"
 	"strings"
-	"unicode/utf8"
 
 	"github.com/resgateio/resgate/server/codec"
 )
@@ -217,26 +216,25 @@ func toLowerASCII(s string) string {
 func matchesOrigins(os []string, o string) bool {
 origin:
 	for _, s := range os {
-		t := o
-		for s != "" && t != "" {
-			sr, size := utf8.DecodeRuneInString(s)
-			s = s[size:]
-			tr, size := utf8.DecodeRuneInString(t)
-			t = t[size:]
-			if sr == tr {
+		if len(s) != len(o) {
+			continue
+		}
+		// Compare byte by byte. Decoding runes would make all invalid UTF-8
+		// sequences compare as equal.
+		for i := 0; i < len(s); i++ {
+			c := o[i]
+			if s[i] == c {
 				continue
 			}
 			// Lowercase A-Z. Should already be done for origins.
-			if 'A' <= tr && tr <= 'Z' {
-				tr = tr + 'a' - 'A'
+			if 'A' <= c && c <= 'Z' {
+				c = c + 'a' - 'A'
 			}
-			if sr != tr {
+			if s[i] != c {
 				continue origin
 			}
 		}
-		if s == t {
-			return true
-		}
+		return true
 	}
 	return false
 }
